@@ -3,6 +3,7 @@
 package gen
 
 import (
+	"regexp"
 	"sort"
 	"strconv"
 	"strings"
@@ -33,7 +34,20 @@ type Config struct {
 	// TypoOff: typographer substitutions switched off with a nil replacement (the documented way):
 	// 0 none, 1 LeftDoubleQuote, 2 RightDoubleQuote, 3 the single quotes and the apostrophe, 4 all of them
 	TypoOff int
+	// FnOpt: footnote rendering options (titles, classes, back-link HTML with the ^^ / %% placeholders):
+	// 0 none; 1 all five through NewFootnote; 2 titles holding characters that need escaping, through
+	// goldmark.WithRendererOptions (reaches the renderer by option name)
+	FnOpt int
+	// LinkProto: 0 default protocols; 1 NewLinkify(WithLinkifyAllowedProtocols(https:, ftp:)); 2 a protocol list that
+	// includes tel:, javascript:, data:, file:, vbscript: together with a URL pattern accepting any scheme
+	// (every linkified URL is still an AutoLink the safe renderer must vet)
+	LinkProto int
 }
+
+var linkProtos = []string{"https:", "ftp:", "http:", "tel:", "x-app:", "javascript:", "data:", "file:", "vbscript:", "JavaScript:"}
+
+// anySchemeURL is a user-supplied URL pattern (WithLinkifyURLRegexp) that accepts every scheme; it still needs a ':'.
+var anySchemeURL = regexp.MustCompile(`^[A-Za-z][A-Za-z0-9+.-]*:[^\s<]*[^\s<?!.,:*_~]`)
 
 var fnPrefixes = []string{"", "x-", "doc-", "article12-", "x-", ""}
 
@@ -78,6 +92,12 @@ func (c Config) String() string {
 	}
 	if c.FnPrefix != 0 && c.Footnote {
 		p = append(p, "fnp"+string(rune('0'+c.FnPrefix)))
+	}
+	if c.FnOpt != 0 && c.Footnote {
+		p = append(p, "fno"+string(rune('0'+c.FnOpt)))
+	}
+	if c.LinkProto != 0 && c.Linkify && !c.GFM {
+		p = append(p, "lpr"+string(rune('0'+c.LinkProto)))
 	}
 	if len(p) == 0 {
 		return "core"
@@ -129,6 +149,12 @@ func ParseConfig(s string) Config {
 			if strings.HasPrefix(tok, "fnp") && len(tok) == 4 {
 				c.FnPrefix = int(tok[3]-'0') % len(fnPrefixes)
 			}
+			if strings.HasPrefix(tok, "fno") && len(tok) == 4 {
+				c.FnOpt = int(tok[3]-'0') % 3
+			}
+			if strings.HasPrefix(tok, "lpr") && len(tok) == 4 {
+				c.LinkProto = int(tok[3]-'0') % 3
+			}
 		}
 	}
 	return c
@@ -156,7 +182,14 @@ func (c Config) Extensions() []goldmark.Extender {
 		exts = append(exts, extension.GFM)
 	}
 	if c.Linkify {
-		exts = append(exts, extension.Linkify)
+		switch c.LinkProto {
+		case 1:
+			exts = append(exts, extension.NewLinkify(extension.WithLinkifyAllowedProtocols(linkProtos[:2])))
+		case 2:
+			exts = append(exts, extension.NewLinkify(extension.WithLinkifyAllowedProtocols(linkProtos), extension.WithLinkifyURLRegexp(anySchemeURL)))
+		default:
+			exts = append(exts, extension.Linkify)
+		}
 	}
 	if c.Table {
 		if len(tableOpts) > 0 {
@@ -182,12 +215,21 @@ func (c Config) Extensions() []goldmark.Extender {
 		exts = append(exts, extension.DefinitionList)
 	}
 	if c.Footnote {
+		var fo []extension.FootnoteOption
 		switch {
 		case c.FnPrefix >= 1 && c.FnPrefix <= 3:
-			exts = append(exts, extension.NewFootnote(extension.WithFootnoteIDPrefix(fnPrefixes[c.FnPrefix])))
+			fo = append(fo, extension.WithFootnoteIDPrefix(fnPrefixes[c.FnPrefix]))
 		case c.FnPrefix == 5:
-			exts = append(exts, extension.NewFootnote(extension.WithFootnoteIDPrefixFunction(FnPrefixFunc)))
-		default: // 0, and 4 (the prefix arrives through RendererOptions)
+			fo = append(fo, extension.WithFootnoteIDPrefixFunction(FnPrefixFunc))
+		} // 0, and 4 (the prefix arrives through RendererOptions)
+		if c.FnOpt == 1 {
+			fo = append(fo, extension.WithFootnoteLinkTitle("note ^^ (%% refs)"), extension.WithFootnoteBacklinkTitle("back from ^^ of %%"),
+				extension.WithFootnoteLinkClass("fref r^^"), extension.WithFootnoteBacklinkClass("fback n%%"),
+				extension.WithFootnoteBacklinkHTML("^^&#8617;"))
+		}
+		if len(fo) > 0 {
+			exts = append(exts, extension.NewFootnote(fo...))
+		} else {
 			exts = append(exts, extension.Footnote)
 		}
 	}
@@ -247,6 +289,9 @@ func (c Config) RendererOptions() []renderer.Option {
 	if c.Footnote && c.FnPrefix == 4 {
 		o = append(o, extension.WithFootnoteIDPrefix(fnPrefixes[4]))
 	}
+	if c.Footnote && c.FnOpt == 2 {
+		o = append(o, extension.WithFootnoteLinkTitle(`"<n ^^> & 'q'`), extension.WithFootnoteBacklinkTitle(`^%^^%%"&amp;`))
+	}
 	return o
 }
 
@@ -299,6 +344,8 @@ var Representative = []Config{
 	{Typo: true, TypoOff: 2, Linkify: true},
 	{Typo: true, TypoOff: 1, GFM: true, XHTML: true},
 	{GFM: true, Footnote: true, FnPrefix: 4, DefList: true},
+	{Footnote: true, FnOpt: 1, Table: true, Linkify: true, LinkProto: 2},
+	{Footnote: true, FnOpt: 2, FnPrefix: 1, XHTML: true, Linkify: true, LinkProto: 1, Strike: true},
 }
 
 // ConfigOpts restricts DrawConfig.
@@ -338,6 +385,12 @@ func DrawConfig(t *rapid.T, o ConfigOpts) Config {
 		if b(25) && b(26) {
 			c.TypoOff = 1 + int((bits>>27)%4)
 		}
+		if b(29) && b(30) {
+			c.FnOpt = 1 + int((bits>>31)%2)
+		}
+		if b(1) && b(16) {
+			c.LinkProto = 1 + int((bits>>24)%2)
+		}
 	}
 	if o.SafeOnly {
 		c.Unsafe = false
@@ -355,7 +408,10 @@ func DrawConfig(t *rapid.T, o ConfigOpts) Config {
 		c.AutoID = true
 	}
 	if !c.Footnote {
-		c.FnPrefix = 0
+		c.FnPrefix, c.FnOpt = 0, 0
+	}
+	if !c.Linkify || c.GFM {
+		c.LinkProto = 0
 	}
 	if !c.Typo {
 		c.TypoOff = 0
